@@ -164,9 +164,7 @@ func VerifC06_TwoMembers() {
 	if zzverif.Bool("secondTypeHasTwo") {
 		nf = []int{1, 2}
 	}
-	if zzverif.Bound("types2", 2, 3) == 3 {
-		nf = append(nf, 1) // thorough: a third type with one member
-	}
+
 	ts, root := vBuildProjectWith(nf)
 	vRecursionVerdict(ts, root)
 }
@@ -233,7 +231,13 @@ func VerifC06_ChoiceShapes() {
 	zzverif.BoundIsViolation()
 	edge := func(tag string) vEdge {
 		e := vEdge{x: zzverif.IntRange(tag+"x", 0, 2)}
-		switch zzverif.IntRange(tag+"kind", 0, zzverif.Bound("choiceKinds", 1, 2)) {
+		kinds := 1
+		if tag[0] == 'a' {
+			// thorough: the two members of @a may also be choices between two
+			// arbitrary types (for all four members the space is 100 000 paths)
+			kinds = zzverif.Bound("choiceKinds", 1, 2)
+		}
+		switch zzverif.IntRange(tag+"kind", 0, kinds) {
 		case 0:
 			e.kind = eRequired
 		case 1:
